@@ -241,6 +241,28 @@ class Token(TokenT):
 PathT: TypeAlias = list[Union[int, str, "PathToken"]]
 
 RE_PROPERTY = re.compile(r"[\u0080-\uFFFFa-zA-Z_][\u0080-\uFFFFa-zA-Z0-9_-]*")
+# Words that are not scanned as a variable name when they appear on their own.
+_KEYWORDS = frozenset(
+    [
+        "true",
+        "false",
+        "and",
+        "or",
+        "in",
+        "not",
+        "contains",
+        "nil",
+        "null",
+        "if",
+        "else",
+        "with",
+        "required",
+        "as",
+        "for",
+        "empty",
+        "blank",
+    ]
+)
 
 
 @dataclass(kw_only=True, slots=True)
@@ -253,21 +275,32 @@ class PathToken(TokenT):
     source: str = field(repr=False)
 
     def __str__(self) -> str:
+        return self._str()
+
+    def _str(self, *, nested: bool = False) -> str:
+        # Inside brackets every bare word is a path, keywords included.
         from .unescape import quote_string
         from .unescape import unescape
 
         it = iter(self.path)
         root = next(it)
         if isinstance(root, PathToken):
+            buf = [f"[{root._str(nested=True)}]"]
+        elif isinstance(root, int):
+            # A bare number would be read as an integer literal.
             buf = [f"[{root}]"]
-        elif isinstance(root, str) and not RE_PROPERTY.fullmatch(root):
+        elif isinstance(root, str) and (
+            not RE_PROPERTY.fullmatch(root)
+            or (len(self.path) == 1 and root in _KEYWORDS and not nested)
+        ):
             # Segments hold the text between quotes, escape sequences included.
+            # A word that would be read as a keyword needs its brackets too.
             buf = [f"[{quote_string(unescape(root, self))}]"]
         else:
             buf = [str(root)]
         for segment in it:
             if isinstance(segment, PathToken):
-                buf.append(f"[{segment}]")
+                buf.append(f"[{segment._str(nested=True)}]")
             elif isinstance(segment, str):
                 if RE_PROPERTY.fullmatch(segment):
                     buf.append(f".{segment}")
